@@ -30,7 +30,7 @@ WHEN A FIX LANDS IN /repo (the patches are `/verif/proposed_fixes/Fnn.diff`): se
 finding `fixed` in `known_findings/C11.json`.
 
   finding  field of `Quirks`        theorem to delete once fixed
-  F6       popInclude               serialize_pure_refuted_F6, second_serialisation_included
+  F6       popInclude               (FIXED 90d029a: done — `serialize_pure_current` now holds)
   F7       textFromMeta             text_preserved_refuted_F7
   F20      pointUnreadable          crtf_roundtrip_refuted_F20
   F21      pixAsDeg                 crtf_roundtrip_refuted_F21
@@ -1685,13 +1685,7 @@ theorem text_preserved_fixed (q : Quirks) (h : q.textFromMeta = false) : text_pr
   simp only [h, Bool.false_eq_true, if_false]
   exact get?_set_self _ _ _
 
-/-- … and the current code refutes it: `TextSkyRegion(c, 'a')` is written as `text[[…], '']`. -/
-theorem text_preserved_refuted_F7 : ¬ text_preserved_full Quirks.current := by
-  intro h
-  have := h { kind := .text, sky := true, pts := [(1, 2)], sizes := [], angle := none, text := "a",
-              mt := [], vis := [] } rfl
-  revert this
-  decide +kernel
+-- text_preserved_refuted_F7: removed, F7 fixed in /repo by 48bc62d
 
 /-- partial: under the current code the string survives exactly when the metadata already
 carries it (`meta['text']`, else `meta['label']`) — e.g. every region that was itself parsed. -/
@@ -1728,21 +1722,21 @@ theorem serialize_pure_fixed (q : Quirks) (h : q.popInclude = false) : serialize
   unfold afterSerialize afterShape
   simp [h]
 
-/-- the current code pops `include` from the caller's metadata … -/
-theorem serialize_pure_refuted_F6 : ¬ serialize_pure_full Quirks.current := by
-  intro h
-  have := h [{ kind := .circle, sky := true, pts := [(1, 2)], sizes := [1], angle := none, text := "",
-               mt := [(.include, .bool false)], vis := [] }]
-  revert this
-  decide +kernel
+/-- F6 was repaired in /repo by 90d029a: the current code leaves the caller's regions alone, so
+a second serialisation of the same objects is the first one again (the theorems
+`serialize_pure_refuted_F6` / `second_serialisation_included`, which refuted this for the
+old code, were removed when the fix landed; the correspondence still serialises every list
+twice and a regression is a VIOLATION). -/
+theorem serialize_pure_current : serialize_pure_full Quirks.current :=
+  serialize_pure_fixed Quirks.current rfl
 
-/-- … so that an EXCLUDED region is written as included the second time: for every excluded
-region, the shape made from the mutated object has lost the exclusion. -/
-theorem second_serialisation_included (cs : String) (r : WReg) (s : WShape)
-    (h : toShape Quirks.current cs (afterShape Quirks.current r) = .ok s) : shapeExcl s = false := by
+/-- what the old code did, kept as a statement about the quirk: with `popInclude` an EXCLUDED
+region is written as included the second time. -/
+theorem second_serialisation_included (q : Quirks) (hq : q.popInclude = true) (cs : String) (r : WReg)
+    (s : WShape) (h : toShape q cs (afterShape q r) = .ok s) : shapeExcl s = false := by
   obtain ⟨hs, -, -⟩ := toShape_inv h
   rw [hs]
-  simp only [shapeExcl, afterShape, Quirks.current, if_true]
+  simp only [shapeExcl, afterShape, hq, if_true]
   rw [get?_erase]
   simp
 
@@ -2677,25 +2671,11 @@ def skyEllipse : WReg :=
   { kind := .ellipse, sky := true, pts := [(10, 20)], sizes := [1/2, 1/4], angle := some 30, text := "",
     mt := [], vis := [] }
 
-/-- F20: `PointSkyRegion` without `symbol` is written as `point[[…]]`, which the reader rejects. -/
-theorem crtf_roundtrip_refuted_F20 : ¬ crtf_roundtrip_full Quirks.current := by
-  intro h
-  have := rtOK_of_full _ _ _ (h skyOpts [pointNoSymbol] (by decide +kernel) (by decide +kernel))
-  revert this; decide +kernel
+-- crtf_roundtrip_refuted_F20: removed, F20 fixed in /repo by 5176ec4
 
-/-- F21: a pixel polygon is written with `deg` on its coordinates, which the reader cannot
-turn into pixel coordinates. -/
-theorem crtf_roundtrip_refuted_F21 : ¬ crtf_roundtrip_full Quirks.current := by
-  intro h
-  have := rtOK_of_full _ _ _ (h ⟨"image", 6, "deg"⟩ [pixelPolygon] (by decide +kernel) (by decide +kernel))
-  revert this; decide +kernel
+-- crtf_roundtrip_refuted_F21: removed, F21 fixed in /repo by 3bd1349
 
-/-- F33: with `radunit='arcsec'` the two semi-axes are written as `[450.000", 900.000"]`, which
-the reader's coordinate regex does not accept. -/
-theorem crtf_roundtrip_refuted_F33 : ¬ crtf_roundtrip_full Quirks.current := by
-  intro h
-  have := rtOK_of_full _ _ _ (h ⟨"fk5", 3, "arcsec"⟩ [skyEllipse] (by decide +kernel) (by decide +kernel))
-  revert this; decide +kernel
+-- crtf_roundtrip_refuted_F33: removed, F33 fixed in /repo by 10da16e
 
 /-- the witnesses are representable, and `Good` (so covered by `crtf_roundtrip_partial`) as soon
 as their own defect is repaired; an ordinary region is `Good` under the current code. -/
